@@ -664,9 +664,7 @@ class ExchangeRate:
             raise ValueError("Unit multiple must be an Integral.")
         if unit_multiple < 1:
             raise ValueError("Unit multiple must be >= 1.")
-        if isinstance(term_amount, Decimal):
-            magnitude_term_amount = term_amount.magnitude
-        else:
+        if not isinstance(term_amount, Decimal):
             try:
                 term_amount = Fraction(term_amount)
             except (ValueError, OverflowError):
@@ -675,11 +673,17 @@ class ExchangeRate:
             except TypeError:
                 raise TypeError(f"Rational number expected as term amount; "
                                 f"{type(term_amount)} given.")
-            if term_amount <= 0:
-                raise ValueError("Term amount must be >= 0.000001.")
-            magnitude_term_amount = int(math.floor(math.log10(term_amount)))
         if term_amount < Decimal("0.000001"):
             raise ValueError("Term amount must be >= 0.000001.")
+        # magnitude of term amount related to the power of 10 corresponding
+        # to given unit multiple
+        adj_term_amount = (term_amount * Decimal(10) ** unit_multiple.magnitude
+                           / unit_multiple)
+        if isinstance(adj_term_amount, Decimal):
+            magnitude_term_amount = adj_term_amount.magnitude
+        else:
+            magnitude_term_amount = int(math.floor(math.log10(
+                adj_term_amount)))
         # adjust unit_multiple and term_amount so that
         # unit_multiple is a power to 10 and term_amount.magnitude >= -1
         mult = Decimal(10) ** (unit_multiple.magnitude
